@@ -40,11 +40,11 @@ EXTRA_MODULES = {
             "Kernels.RemoveZerodm", "Kernels.Downsample2d"],
     "C08": ["Tie.HeaderUpdates"],
     "C09": ["Tie.Dedisperse", "Tie.Subband", "Kernels.Dedisperse", "Kernels.Subband", "Kernels.RollBlock", "Kernels.DmtBlock", "Tie.DmLaw", "Tie.DedispBlock"],
-    "C10": ["Tie.Moments"],
+    "C10": ["Tie.Moments", "Tie.ChannelStats"],
     "C11": ["Tie.Plan", "Tie.Fold", "Kernels.Fold"],
     "C12": ["Tie.FftLengths"],
     "C13": ["Tie.TemplatePrep", "Tie.StatsLane"],
-    "C14": ["Kernels.Downsample1d", "Kernels.Downsample2d", "Tie.FilterGeom"],
+    "C14": ["Kernels.Downsample1d", "Kernels.Downsample2d", "Tie.FilterGeom", "Tie.Detrend"],
     "C15": ["Tie.StatsLane"],
     "C16": ["Kernels.MaskChannels", "Tie.StateMachines"],
     "C17": ["Tie.StateMachines"],
